@@ -294,6 +294,50 @@ func ruleFreshDecode(p *Program, r *Result, delivery bool) {
 					}
 				}
 			}
+			// the checks as a method of the configuration type, called on the fresh value with its error guarding
+			// the send: the method's own length tests on its receiver count
+			for _, c := range allCalls(fn) {
+				cc, isCall := c.(*ssa.Call)
+				mf := c.Common().StaticCallee()
+				if !isCall || mf == nil || mf.Signature.Recv() == nil || len(mf.Blocks) == 0 || !isErrorType(cc.Type()) || len(cc.Common().Args) != 1 {
+					continue
+				}
+				if !typeIs(derefT(mf.Signature.Recv().Type()), modPath+"/cmds/server/config", "ServerConfig") {
+					continue
+				}
+				arg := cc.Common().Args[0]
+				onFresh := arg == ssa.Value(a) || isCopyOfLocal(arg, a, 3)
+				if !onFresh {
+					continue
+				}
+				if g, _ := guardedBySuccess(cc, sd, nil); !g {
+					continue
+				}
+				recvP := mf.Params[0]
+				for _, b := range mf.Blocks {
+					iff, ok := b.Instrs[len(b.Instrs)-1].(*ssa.If)
+					if !ok {
+						continue
+					}
+					bo, ok := iff.Cond.(*ssa.BinOp)
+					if !ok {
+						continue
+					}
+					lc, ok := bo.X.(*ssa.Call)
+					if !ok {
+						continue
+					}
+					if bi, ok := lc.Common().Value.(*ssa.Builtin); !ok || bi.Name() != "len" {
+						continue
+					}
+					if _, base, ok := loadedField(lc.Common().Args[0]); ok && sameObject(base, recvP) {
+						// the failing side returns an error
+						if errOnlyBlock(mf, b.Succs[0]) || errOnlyBlock(mf, b.Succs[1]) {
+							nchk++
+						}
+					}
+				}
+			}
 			r.cond(nchk >= 2, "R-FRESHDECODE", key+":content-checks", p.Pos(call.Pos()),
 				fmt.Sprintf("%d minimum-content checks on the fresh value dominate the publication", nchk),
 				"the minimum-content checks (at least one secret, at least one user) on the fresh value no longer dominate the publication")
